@@ -309,7 +309,7 @@ def run(rng, res, tier, shard, nshards):
         f = check_case(case, res)
         nt = sum(1 for op in case['history'] if op[0] == 'add_asset') >= 2 and any(op[0] == 'add_assoc' for op in case['history'])
         res.case(digest([case['history'], case['fmt']]) if nt else None)
-        if res.evaluations % 97 == 2:
+        if len(res.samples) < 3 and nt:
             res.sample({'fmt': case['fmt'], 'model_name': case['name'], 'history': case['history'][:10]})
         if f:
             if f[0].startswith('history:'):
